@@ -113,8 +113,9 @@ func vhBuildGroupMap(storage SlabStorage, addr Address, b *vDigesterBuilder, nsi
 //vh:prop C12 C05 C09 C02 C06 C13
 //vh:param singles 2 4
 //vh:param gsize 3 3
+//vh:param symT 0 1
 func VH_C12_GroupStep() {
-	vhSetThreshold(256)
+	vhThreshold()
 	storage := vhNewBasicStorage()
 	addr := vhAddr(1)
 	b := &vDigesterBuilder{levels: 4}
